@@ -6,6 +6,7 @@ class C17's anchor names, whether or not a Decoder entry point reaches it.
 The inverse-pair (round trip) clauses quantify over all values: not decided.
 """
 from ..core import load_table
+from ..facts import strip_targs
 from .. import primbound
 
 LEVEL = "other"
@@ -57,8 +58,9 @@ def widenshift(ctx, rep):
     dirs = ("/draco/core/", "/compression/bit_coders/", "/compression/entropy/")
     n_sh, seen = 0, set()
     fired = False
+    wide_shifts = {}
     for fn in F.fns.values():
-        is_ctl = fn.name.startswith("verif_control::") and "widenshift" in fn.name
+        is_ctl = fn.name.startswith("verif_control::") and ("widenshift" in fn.name or "wideshift" in fn.name)
         if not is_ctl and not any(d in fn.file for d in dirs):
             continue
         for blk, rk, tree, ev in fn.roots():
@@ -71,6 +73,27 @@ def widenshift(ctx, rep):
                 if isinstance(r, dict) and "v" in r:
                     continue
                 n_sh += 0 if is_ctl else 1
+                # SHIFT-LEDGER: the left operand is a full-width run-time value (not a constant, a single bit or
+                # a byte): the shift can push set bits out of the word
+                l = n.get("l")
+                while isinstance(l, dict) and l.get("k") in ("copy", "paren"):
+                    l = l.get("e")
+                lw = l
+                while isinstance(lw, dict) and lw.get("k") in ("icast", "cast") and "v" not in lw:
+                    lw = lw.get("e")
+                if not isinstance(lw, dict) or "v" in lw or (lw.get("iw") or 32) <= 8:
+                    continue
+                if lw.get("k") == "call" and strip_targs(lw.get("fn") or "").rsplit("::", 1)[-1] in ("GetBit", "PeekBit"):
+                    continue
+                if (n.get("iw") or (l.get("iw") if isinstance(l, dict) else None) or 32) >= 64:
+                    continue          # 64-bit shifts of 32-bit payloads
+                nm = None
+                for x in walk(lw):
+                    if x.get("k") in ("var", "field") and x.get("n"):
+                        nm = x["n"]
+                        break
+                wide_shifts.setdefault(("%s | %s" % (fn.base.replace("draco::", ""), nm or "expression"), is_ctl),
+                                       (fn, ev))
             for n in walk(tree):
                 if n.get("k") in ("icast", "cast") and (n.get("iw") or 0) >= 64 and "v" not in n:
                     e = n.get("e")
@@ -89,5 +112,20 @@ def widenshift(ctx, rep):
     rep.add(Obligation("WIDENSHIFT", "bitstream primitives", "run-time shifts inspected", "-", DISCHARGED,
                        detail="%d left shifts by a run-time amount inspected; none is a 32-bit shift widened to 64 bits"
                               % n_sh, trivial=True))
+    ledger = load_table("primitives.json").get("wide_shift_ledger", {})
+    rep.rules_text.append(
+        "SHIFT-LEDGER: the run-time left shifts in the bitstream primitives whose left operand is a full-width value "
+        "(they drop whatever is pushed past bit 31) are a closed, reviewed set; a new one (gathering `data << bit_shift` "
+        "in a 32-bit temporary) loses the top bits of wide fields")
+    lf = False
+    for (key, is_ctl), (fn, ev) in sorted(wide_shifts.items(), key=lambda x: x[0][0]):
+        ok = key in ledger
+        lf |= is_ctl and not ok
+        rep.add(Obligation("SHIFT-LEDGER", fn.base, "full-width left shift of " + key.split(" | ")[1],
+                           fn.site(ev.get("loc", "")), DISCHARGED if ok else VIOLATION, control=is_ctl, trivial=ok,
+                           detail=ledger.get(key, "") if ok else
+                           "`%s`: a full-width run-time value is shifted left in 32 bits and the shift is not in the "
+                           "reviewed ledger: bits pushed past bit 31 are lost" % (ev.get("src") or "")[:90]))
+    rep.control("SHIFT-LEDGER", "c17_wideshift_bad", lf, "an unlisted full-width shift must be reported")
     rep.floor("run-time left shifts in the bitstream primitives", n_sh, 5)
     rep.control("WIDENSHIFT", "c17_widenshift_bad", fired, "a widened 32-bit shift must be reported")
